@@ -77,6 +77,15 @@ def mixed_grid(nx, ny, split, pert=None):
 
 
 def make_grid(spec):
+    g = _make_grid_unit(spec)
+    if spec.get("scale_exp"):
+        # small-scale stream: the whole grid scaled by the dyadic factor 2^-scale_exp
+        g.nodes = g.nodes * 2.0 ** (-int(spec["scale_exp"]))
+        g.compute_geometry()
+    return g
+
+
+def _make_grid_unit(spec):
     kind = spec["kind"]
     if kind == "mixed":
         g = mixed_grid(spec["n"][0], spec["n"][1], spec["split"], spec.get("pert"))
@@ -207,7 +216,9 @@ class C15(Prop):
             "quadrilateral faces in one 3-D grid), discretised in 1, 2 or 3 subproblems (partition_arguments), "
             "StructuredTriangleGrid, "
             "StructuredTetrahedralGrid, 55% with every node moved by a dyadic offset; Lame parameters "
-            "and alpha (scalar, or a symmetric tensor in half of the cases) from dyadic sets; all-Dirichlet displacement boundary; linear field with small "
+            "and alpha (scalar, or a symmetric tensor in half of the cases) from dyadic sets; directed small-scale "
+            "streams in every run: grid scaled by 2^-10 ... 2^-24, and independently alpha scaled by 2^-6 ... 2^-20, "
+            "all errors measured relative to the magnitude of the quantity; all-Dirichlet displacement boundary; linear field with small "
             "integer A, b; constant pressure; non-trivial = at least 2 cells and tr(A) != 0")
     trusted = ["rows handed to Coq = scipy hstack of the real matrices, explicit zeros dropped, converted "
                "with Fraction(float); geometry arrays likewise",
@@ -238,6 +249,13 @@ class C15(Prop):
                          rng.choice([0.5, 1.0, 2.0]), rng.choice([0.0, 0.25, -0.125]),
                          rng.choice([0.0, 0.125, -0.25]) if nd == 3 else 0.0,
                          rng.choice([0.0, -0.125, 0.25]) if nd == 3 else 0.0]
+            if idx % 5 == 2 or rng.random() < 0.1:
+                # directed small-scale stream: cells down to 2^-24 of the unit size
+                spec["scale_exp"] = rng.choice([10, 14, 17, 20, 24])
+            if idx % 5 == 3 or rng.random() < 0.1:
+                # independently: tiny coupling coefficient
+                fac = 2.0 ** (-rng.choice([6, 10, 14, 20]))
+                alpha = [a * fac for a in alpha] if isinstance(alpha, list) else alpha * fac
             yield {"grid": spec, "mu": rng.choice(mus), "lam": rng.choice(lams),
                    "nsub": rng.choice([2, 3]) if idx % 2 == 1 else rng.choice([1, 1, 2]),
                    "alpha": alpha, "A": A, "b": [rng.randint(-3, 3) for _ in range(nd)],
@@ -327,16 +345,22 @@ class C15(Prop):
         ub = (A @ fc + b[:, None]) * isb[None, :]
         val = D @ np.hstack([uc, ub.ravel("F")])
         exact = float(np.sum(alpha * A)) * vols
-        scale = max(1.0, np.abs(D).max()) * (1.0 + np.abs(A).max() + np.abs(b).max()) * (1.0 + np.abs(fc).max())
-        if np.abs(val - exact).max() > 1e-8 * scale:
-            c = int(np.argmax(np.abs(val - exact)))
+        # error relative to the magnitude of the terms of each row and of the expected value (no
+        # absolute floor: micrometre cells / tiny alpha are held to the same relative accuracy)
+        uvec = np.hstack([uc, ub.ravel("F")])
+        scale = np.abs(D) @ np.abs(uvec) + np.abs(exact)
+        bad = np.abs(val - exact) > 1e-8 * scale
+        if bad.any():
+            c = int(np.argmax(np.abs(val - exact) / np.where(scale > 0, scale, 1.0)))
             return (f"displacement divergence of u = A x + b (A={A.tolist()}, b={b.tolist()}) in cell {c}: "
                     f"{val[c]:.12g}, expected (alpha:A)*|K| = {exact[c]:.12g}")
         p = float(case["p"])
         gp = G @ (p * np.ones(nc))
         ex = -p * (alpha @ nrm).ravel("F")
-        if np.abs(gp - ex).max() > 1e-8 * max(1.0, np.abs(G).max()) * (1.0 + abs(p)):
-            q = int(np.argmax(np.abs(gp - ex)))
+        gscale = np.abs(G) @ (abs(p) * np.ones(nc)) + np.abs(ex)
+        gbad = np.abs(gp - ex) > 1e-8 * gscale
+        if gbad.any():
+            q = int(np.argmax(np.abs(gp - ex) / np.where(gscale > 0, gscale, 1.0)))
             return (f"scalar gradient of constant pressure {p} on face {q // nd} component {q % nd}: "
                     f"{gp[q]:.12g}, expected -p*(alpha n) = {ex[q]:.12g}")
         return None
@@ -360,6 +384,7 @@ class C15(Prop):
         self._stats["dims"][str(res["nd"])] = self._stats["dims"].get(str(res["nd"]), 0) + 1
         k = case["grid"]["kind"] + ("+pert" if case["grid"].get("pert") else "")
         self._stats["multi_subproblem"] = self._stats.get("multi_subproblem", 0) + int(case.get("nsub", 1) > 1)
+        self._stats["small_scale_grid"] = self._stats.get("small_scale_grid", 0) + int(bool(case["grid"].get("scale_exp")))
         self._stats["alpha_tensor"] = self._stats.get("alpha_tensor", 0) + int(isinstance(case["alpha"], list))
         self._stats["nonplanar_geometry_skipped"] = (self._stats.get("nonplanar_geometry_skipped", 0)
                                                      + int(not self._full(case)["planar"]))
